@@ -31,7 +31,8 @@ def pure_ops(spec):
            ("eq/hash/repr", lambda a, b: [a == b, a != b, b == a, hash(a), repr(a), a == a.copy()]),
            ("accessors", accessors)]
     if not has_transform(spec):
-        ops += [("a*0.5", lambda a, b: [a * 0.5]), ("2*a", lambda a, b: [2 * a]), ("a*0", lambda a, b: [a * 0])]
+        ops += [("a*0.5", lambda a, b: [a * 0.5]), ("2*a", lambda a, b: [2 * a]), ("a*0", lambda a, b: [a * 0]),
+                ("a*1", lambda a, b: [a * 1.0]), ("1*a", lambda a, b: [1 * a])]
     return ops
 
 
@@ -73,19 +74,24 @@ def accessor_results(a, b):
         return []
 
 
-def check_pure(spec, ha, hb, opname, muts, reloaded=False, np0=False):
+def check_pure(spec, ha, hb, opname, muts, reloaded=False, np0=False, named_b=False):
     """Apply one pure operation to fresh operands a, b; then every mutator to each returned container and to the
     operands; observable states of the untouched objects must not change. reloaded: the operands are JSON reloads
     (immutable form: they cannot be filled, but they can still be merged into in place)."""
     import histogrammar as hg
 
     args = {"spec": spec, "ha": core.show_evs(ha), "hb": core.show_evs(hb), "op": opname, "muts": core.show_evs(muts),
-            "reloaded": reloaded, "np0": np0}
+            "reloaded": reloaded, "np0": np0, "named_b": named_b}
     out = []
     op = dict(pure_ops(spec))[opname]
 
     def fresh():
         a, b = core.mk(spec, ha), core.mk(spec, hb)
+        if named_b:
+            # the same tree booked with named quantities (merging only compares the binning): a stays anonymous
+            from .c11 import with_qk
+
+            b = core.mk(with_qk(spec, "named"), hb)
         if np0:
             # a vectorised fill whose rows all have weight 0 adds nothing, but may book (empty) sparse bins / categories
             import numpy as np
@@ -428,10 +434,15 @@ def _tree(task):
                     m.append((r, w))
             acc.add(check_pure(spec, ha, hb, opname, m))
             acc.n("pure_op_cases")
-            if opname in ("a+b", "zero", "copy", "a*0.5", "a*0"):
+            if opname in ("a+b", "zero", "copy", "a*0.5", "a*0", "a*1"):
                 acc.add(check_pure(spec, ha, hb, opname, m, reloaded=True))
                 acc.n("pure_op_cases")
                 acc.n("pure_op_cases_on_reloaded_operands")
+            if opname in ("a+b", "b+a", "combine(a,b)") and S.fields(spec) and not any(
+                    n.get("qk") for _, _, n in S.node_ids(spec)) and ha is hists[-1]:
+                acc.add(check_pure(spec, ha, hb, opname, m, named_b=True))
+                acc.n("pure_op_cases")
+                acc.n("pure_op_cases_with_named_right_operand")
             if sparse and S.fields(spec) and opname in ("a+b", "eq/hash/repr", "copy", "toJson", "accessors", "zero"):
                 acc.add(check_pure(spec, ha, hb, opname, m, np0=True))
                 acc.n("pure_op_cases")
@@ -516,4 +527,5 @@ def replay(driver, args):
     if "df_method" in args:
         return check_dfmethod(args["df_method"])
     return check_pure(args["spec"], core.unshow_evs(args["ha"]), core.unshow_evs(args["hb"]), args["op"],
-                      core.unshow_evs(args["muts"]), args.get("reloaded", False), args.get("np0", False))
+                      core.unshow_evs(args["muts"]), args.get("reloaded", False), args.get("np0", False),
+                      args.get("named_b", False))
